@@ -1003,7 +1003,9 @@ func (ex *Exec) softBool(e *Expr, env *Env) (res *Term) {
 	defer func() {
 		if r := recover(); r != nil {
 			if u, ok := r.(unsupported); ok && strings.Contains(u.msg, "unknown identifier") {
-				ex.st.pc = ex.st.pc[:savedPC]
+				if savedPC <= len(ex.st.pc) {
+					ex.st.pc = ex.st.pc[:savedPC]
+				}
 				if env.lenient {
 					// on the assumption side the only sound reading of "cannot be evaluated here" is "no information":
 					// the enclosing implication a ==> ? becomes true
